@@ -1,6 +1,7 @@
 //! Verification harness for SwiftMTMessage: replays TLC-generated behaviours against the
 //! library built from /repo's working tree and records traces for TLC to validate.
 
+mod c16;
 mod msgcheck;
 mod registry;
 mod tok;
@@ -13,6 +14,9 @@ fn main() {
     let rest = &args[1.min(args.len())..];
     let code = match cmd {
         "msg" => msgcheck::run(rest),
+        "tokens" => c16::run_tokens(rest),
+        "tracker" => c16::run_tracker(rest),
+        "split" => c16::run_split(rest),
         "parse1" => {
             // parse one full message (file) as type --mt and print the outcome
             let mt = util::arg(rest, "--mt").expect("--mt");
